@@ -1,5 +1,6 @@
 import Hive.Proofs.WorkerPoolLog
 import Hive.Proofs.WorkerPoolGroup
+import Hive.Proofs.WorkerPoolTerm
 import Hive.Model.WorkerPoolSched
 /-!
 # C16 — WorkerPool conserves tasks and always shuts down
@@ -127,11 +128,50 @@ which nobody can move any more: the pending counter is zero (so every accepted t
 cancelled), every client call has returned — except `ShutdownComplete.Wait()` calls on a pool that is
 running again — and a pool that is not running has no live goroutine (`ShutdownComplete` is at zero). -/
 def C16_statement : Prop :=
-  ∀ (p : Params) (ts : List Thr) (c : Cfg St Thr), 0 < p.W → p.oldStart = false → Initial ts →
+  ∀ (p : Params) (ts : List Thr) (c : Cfg St Thr), 0 < p.W → p.oldStart = false → Initial ts → Thr.runner ∈ ts →
     Reach (sys p) (St.init, ts) c → Stuck (sys p) c →
       c.1.pending = 0 ∧
       (∀ t ∈ c.2, t.finished = true ∨ (t.atWaitComplete = true ∧ c.1.running = true)) ∧
       (c.1.running = false → wg c.1 = 0)
+
+/-- **C16, termination and quiescence — the part the code satisfies.**  For every worker count ≥ 1,
+cancel-on-shutdown on or off, any number of client threads with arbitrary scripts (Submit of tasks that
+submit tasks, Shutdown, Start, ShutdownComplete.Wait, WaitIsZero), and every schedule on which
+* no `Submit` was between its running-check and its push when a `Shutdown` switched the pool off
+  (`raced = false`),
+* no `Shutdown` broadcast `elementAdded` while the dispatcher was between `PopOrWait`'s wait condition
+  and its `Wait` (`lost = false`),
+* no `Start` took the pool lock of a stopped pool whose previous shutdown had not completed
+  (`startRace = false`; with the repaired `Start` this needs a second, concurrent `Start`/`Shutdown`),
+a configuration in which nobody can move is a good one: the pending counter is zero — hence, by
+`C16_conservation`, every accepted task was run or cancelled —, every call has returned except waits
+for the completion of a shutdown of a pool that is running (again), and a stopped pool has no live
+goroutine, i.e. every `Shutdown(); ShutdownComplete.Wait()` has terminated.
+
+Missing for the full `C16_statement`: exactly the three excluded schedules.  The first two are
+violated by the code (`C16_submit_window_*_witness`, `C16_signal_lost_witness`, replayed on the real
+code); for the third no replay on the real code exists (no hook between `Start`'s wait and its
+`Lock`), so it is not claimed as a defect. -/
+theorem C16_shutdown_terminates_partial (p : Params) (ts : List Thr) (c : Cfg St Thr) (hW : 0 < p.W)
+    (h0 : Initial ts) (hrun : Thr.runner ∈ ts) (hr : Reach (sys p) (St.init, ts) c)
+    (hraced : c.1.raced = false) (hlost : c.1.lost = false) (hstart : c.1.startRace = false)
+    (hstuck : Stuck (sys p) c) :
+    c.1.pending = 0 ∧
+    (∀ t ∈ c.2, t.finished = true ∨ (t.atWaitComplete = true ∧ c.1.running = true)) ∧
+    (c.1.running = false → wg c.1 = 0) := by
+  obtain ⟨s, ts'⟩ := c
+  exact stuck_good hW (finv_reach p hW ts h0 hrun (s, ts') hr) hraced hlost hstart hstuck
+
+/-- Under the same hypotheses every accepted task has finished at quiescence: the number of tasks whose
+counter increase happened equals the number of tasks marked done (run to the end, or cancelled) — with
+`C16_conservation` (at most once, never both) this is "run or cancelled exactly once". -/
+theorem C16_exactly_once_partial (p : Params) (ts : List Thr) (c : Cfg St Thr) (hW : 0 < p.W)
+    (h0 : Initial ts) (hrun : Thr.runner ∈ ts) (hr : Reach (sys p) (St.init, ts) c)
+    (hraced : c.1.raced = false) (hlost : c.1.lost = false) (hstart : c.1.startRace = false)
+    (hstuck : Stuck (sys p) c) : cnt fUp c.1 = cnt fDn c.1 := by
+  have h1 := (C16_shutdown_terminates_partial p ts c hW h0 hrun hr hraced hlost hstart hstuck).1
+  have h2 := (C16_conservation p ts h0 c hr).2.1
+  omega
 
 theorem stuckB_sound (p : Params) (c : Cfg St Thr) (h : stuckB p c = true) : Stuck (sys p) c := by
   intro t ht
@@ -197,7 +237,7 @@ theorem C16_statement_fails_witness : ¬ C16_statement := by
   have hw := C16_submit_window_lost_witness
   simp only at hw
   have := h scWindowLost.p (mkClients scWindowLost.scripts)
-    (runSched (sys scWindowLost.p) scWindowLost.init scWindowLostSched) (by decide) rfl (by intro t ht; revert t; decide)
+    (runSched (sys scWindowLost.p) scWindowLost.init scWindowLostSched) (by decide) rfl (by intro t ht; revert t; decide) (by simp [mkClients])
     (runSched_reach _ _ _) (stuckB_sound _ _ hw.1)
   rw [hw.2.2.2.2.1] at this
   exact absurd this.1 (by decide)
@@ -212,11 +252,14 @@ theorem C16_old_start_witness :
   decide
 
 /-- The same life cycle with the repaired `Start`, followed by a task and a second shutdown, runs to
-a clean end (non-vacuity of the model: tasks are accepted, dispatched, run, and the pool restarts). -/
+a clean end: non-vacuity of the model (tasks are accepted, dispatched, run, the pool restarts) and of
+the hypotheses of `C16_shutdown_terminates_partial` (a reachable stuck configuration with
+`raced = lost = startRace = false`). -/
 theorem C16_restart_example :
     let c := runSched (sys scRestart.p) scRestart.init scRestartSched
     stuckB scRestart.p c = true ∧ clientsDone c = true ∧ c.1.pending = 0 ∧ wg c.1 = 0 ∧ c.1.starts = 2 ∧
-      countPhase c.1 (· == .done) = 1 ∧ c.1.raced = false ∧ c.1.lost = false ∧ c.1.broken = false ∧
+      countPhase c.1 (· == .done) = 1 ∧ c.1.raced = false ∧ c.1.lost = false ∧ c.1.startRace = false ∧
+      c.1.broken = false ∧
       traceOk scRestart.p.cancel c.1.log = true := by
   decide
 
